@@ -116,6 +116,10 @@ EXPRS = [
     ("x * y", "lambda x, y: x * y"),
     ("2 * x + 1 > y", "lambda x, y: 2 * x + 1 > y"),
     ("(x > 0) == (y > 0)", "lambda x, y: (x > 0) == (y > 0)"),
+    # round 5: record fields referenced from a nested scope of the expression (generator expression, lambda)
+    ("sum(x * t for t in (y, 1.0))", "lambda x, y: sum(x * t for t in (y, 1.0))"),
+    ("(lambda t: t + x)(y)", "lambda x, y: (lambda t: t + x)(y)"),
+    ("max(t - y for t in (x, 2.0))", "lambda x, y: max(t - y for t in (x, 2.0))"),
 ]
 
 
